@@ -206,6 +206,21 @@ func genTypedSpec(rng *rand.Rand) *specs.Spec {
 		raw = &specs.Spec{Version: "1.0.0", Kind: "vendor.com/class",
 			Devices: []specs.Device{{Name: "d", ContainerEdits: specs.ContainerEdits{Env: []string{"A=b"}}}}}
 	}
+	// annotation keys in every spelling the library takes (it lower-cases the key before checking it): upper case in the
+	// DNS prefix and in the name, the longest prefix and name, no prefix, odd but legal punctuation
+	if rng.Intn(4) == 0 {
+		keys := []string{"Vendor.com/origin", "VENDOR.COM/Origin", "vendor.com/Mixed_Case-1.x", "plain", "X", "a.b-c.d/e_f.g",
+			strings.Repeat("a", 63) + "." + strings.Repeat("b", 63) + "/" + strings.Repeat("n", 63)}
+		ann := map[string]string{keys[rng.Intn(len(keys))]: "v", keys[rng.Intn(len(keys))]: ""}
+		if rng.Intn(2) == 0 || len(raw.Devices) == 0 {
+			raw.Annotations = ann
+		} else {
+			raw.Devices[rng.Intn(len(raw.Devices))].Annotations = ann
+		}
+		if raw.Version < "0.6.0" {
+			raw.Version = "0.6.0"
+		}
+	}
 	// numeric extremes of every integer field
 	ext64 := []int64{0, 1, -1, 9223372036854775807, -9223372036854775808}
 	ext32 := []uint32{0, 1, 4294967295}
